@@ -11,7 +11,7 @@ import (
 // never written at run time.
 //
 //	known: property=C09 id=KF07 code=child_differs trigger=name witness="..." what=...
-//	fixed: property=C01,C08 id=F01 commit=abc123 witness="hello" what=...
+//	fixed: property=C01,C08 id=F01 commit=abc123 witness="hello" [expect="<p>hello</p>"] what=...
 type KnownFinding struct {
 	Status     string // "known" or "fixed"
 	Properties []string
@@ -20,7 +20,10 @@ type KnownFinding struct {
 	Trigger    string
 	Commit     string
 	Witness    []byte
-	What       string
+	// Expect is the HTML that the CommonMark mapping assigns to the witness; C06
+	// judges the witness against it (the other properties need no expectation).
+	Expect []byte
+	What   string
 }
 
 func (k *KnownFinding) hasProperty(id string) bool {
@@ -90,6 +93,8 @@ func loadKnown(verifDir string) []KnownFinding {
 				kf.Commit = val
 			case "witness":
 				kf.Witness = []byte(val)
+			case "expect":
+				kf.Expect = []byte(val)
 			case "what":
 				kf.What = val
 			}
